@@ -619,12 +619,25 @@ def judge_table(chk, case):
     P, n, f = case["P"], case["n"], case["f"]
     src = mk_source(P)
     real_err = None
+    # The event table is reached through private members (`_prob_table`, `_compute_prob_table`; the repository's own
+    # tests read them too).  A tree in which they were renamed or restructured is not judged here: the case is
+    # counted as skipped (the samplers built on the table are still judged through the public API).
+    if case.get("cache"):
+        if not (hasattr(src, "cache_prob_table") and hasattr(type(src), "_prob_table") or hasattr(src, "_prob_table")):
+            chk.count("private_members_missing", "_prob_table")
+            return None
+    elif not hasattr(src, "_compute_prob_table"):
+        chk.count("private_members_missing", "_compute_prob_table")
+        return None
     try:
         if case.get("cache"):
             perf, zpp = src.cache_prob_table(n, f)
             table = dict(src._prob_table)
-            if (src._prob_table_n, src._prob_table_filter) != (n, f):
-                return ("violation", "table-cache-key", "cache_prob_table does not record (n, filter)", case)
+            if hasattr(src, "_prob_table_n") and hasattr(src, "_prob_table_filter"):
+                if (src._prob_table_n, src._prob_table_filter) != (n, f):
+                    return ("violation", "table-cache-key", "cache_prob_table does not record (n, filter)", case)
+            else:
+                chk.count("private_members_missing", "_prob_table_n/_prob_table_filter")
         else:
             table, perf, zpp = src._compute_prob_table(n, f)
         table = {tuple(int(x) for x in k): float(v) for k, v in table.items()}
